@@ -1,7 +1,7 @@
 (* C10 — the opening handshake request is well-formed and reflects URL and options.
    Statements only (restated verbatim from Proofs/*.v), each closed by [exact]. *)
 From Coq Require Import ZArith List Bool Permutation.
-From WS Require Import Base.Res Base.Bytes Base.Str Base.B64 Gen.GenHandshake Spec.HttpReq Model.Xport Model.Http Model.Handshake Proofs.HandshakeProof.
+From WS Require Import Base.Res Base.Bytes Base.Str Base.B64 Gen.GenHandshake Spec.HttpReq Model.Xport Model.Http Model.Handshake Proofs.HandshakeProof Model.Url Model.Open Model.Connect Proofs.RedirectHops.
 Import ListNotations.
 Open Scope Z_scope.
 
@@ -130,3 +130,41 @@ Print Assumptions C10_custom_headers.
 Definition C10_custom_dict_none_skipped := @HandshakeProof.custom_dict_headers.
 Check C10_custom_dict_none_skipped.
 Print Assumptions C10_custom_dict_none_skipped.
+
+(* every opening handshake records exactly the request built from its own URL, target, options and the next random draw *)
+(* alias of Proofs/RedirectHops.v:do_handshake_records (proved inside a Section or with binders): the closed statement is printed by Check *)
+Definition C10_request_recorded := @RedirectHops.do_handshake_records.
+Check C10_request_recorded.
+Print Assumptions C10_request_recorded.
+
+(* REDIRECTS: the requests of one connect() are the requests of its hops, each built from the hop's own URL (the initial URL, then the Location of each redirect response), one draw per hop *)
+Theorem C10_redirect_hops_are_direct : forall url o limit prepared st r st',
+  ws_connect url o limit prepared st = (r, st') ->
+  exists urls reqs,
+    cs_requests st' = cs_requests st ++ reqs /\
+    hops o urls (cs_rand st) reqs /\
+    (length reqs <= Z.to_nat limit + 1)%nat /\
+    match urls with [] => reqs = [] | u :: _ => u = url end.
+Proof. exact RedirectHops.redirect_hops_are_direct. Qed.
+Print Assumptions C10_redirect_hops_are_direct.
+
+(* the request sent to a redirect target equals the request of a direct connection to that target with the same options and key draw *)
+Theorem C10_redirect_target_request_is_direct :
+  forall o urlA limitA preparedA stA rA stA' x tg st1 status hs x1 st2 url'
+         req0 req1 moreA d0 d1 randA
+         limitB preparedB stB rB stB' reqB moreB randB,
+  (* A: the first exchange ends in a redirect to url' *)
+  open_conn urlA preparedA stA = (Ok (x, tg), st1) ->
+  do_handshake urlA tg o x st1 = (Ok (HsRedirect status hs), x1, st2) ->
+  alist_get S_LOCATION hs = Some url' ->
+  ws_connect urlA o limitA preparedA stA = (rA, stA') ->
+  cs_requests stA' = cs_requests stA ++ req0 :: req1 :: moreA ->
+  cs_rand stA = d0 :: d1 :: randA ->
+  (* B: direct, same options, same draw *)
+  ws_connect url' o limitB preparedB stB = (rB, stB') ->
+  cs_requests stB' = cs_requests stB ++ reqB :: moreB ->
+  cs_rand stB = d1 :: randB ->
+  req1 = reqB /\
+  exists tg', parse_url url' = Ok tg' /\ hop_request url' tg' o d1 = Some req1.
+Proof. exact RedirectHops.single_hop_is_direct. Qed.
+Print Assumptions C10_redirect_target_request_is_direct.
